@@ -829,7 +829,7 @@ func calleeName(info *types.Info, call *ast.CallExpr) string {
 
 // errorsGate checks that for every error-returning call of f whose result is
 // tested, the protected effect cannot be reached from the call once the edges
-// on which that error is nil are cut (and without executing the call again): a
+// on which that error is nil are cut: a
 // failing step never falls through to the effect. tolerated gives, for a call
 // whose failure is allowed to fall through by the property's own statement,
 // the reason. One result is recorded per call; the number of gated calls is
@@ -845,7 +845,6 @@ func (c *Ctx) errorsGate(instance string, f *Func, what string, effect func(Poin
 		ord[name]++
 		inst := fmt.Sprintf("%s: %s #%d", instance, name, ord[name])
 		nilE, _, errObj, _ := OutcomeEdges(s)
-		again := atSite(s)
 		if pt, _ := g.Reach(s.After(), Cut{}, effect); pt == nil {
 			continue // the effect does not follow this call at all
 		}
@@ -859,7 +858,20 @@ func (c *Ctx) errorsGate(instance string, f *Func, what string, effect func(Poin
 			isErr := func(e ast.Expr) bool { return objOf(f.Info(), e) == errObj }
 			return (isErr(be.X) && isEOF(be.Y)) || (isErr(be.Y) && isEOF(be.X))
 		}))
-		pt, path := g.Reach(s.After(), Cut{Edges: nilE, Stop: func(p Point, nd ast.Node) bool { return again(p, nd) }}, effect)
+		// phase 1: while the error value of this call is live, only the failure
+		// edges are open; phase 2: once the variable has been overwritten the
+		// failure was not acted upon, and whatever follows is reachable from it
+		reassigned := func(p Point, nd ast.Node) bool {
+			return nd != nil && p != s.P && errObj != nil && assignsTo(f.Info(), nd, errObj)
+		}
+		pt, path := g.Reach(s.After(), Cut{Edges: nilE, Stop: reassigned}, effect)
+		if pt == nil {
+			for _, q := range g.ReachAll(s.After(), Cut{Edges: nilE, Stop: reassigned}, reassigned) {
+				if pt, path = g.Reach(Point{q.B, q.I + 1}, Cut{}, effect); pt != nil {
+					break
+				}
+			}
+		}
 		if pt == nil {
 			n++
 			c.add(Result{Instance: inst, Verdict: Discharged, Sites: []string{s.Pos()}, Evals: 1,
